@@ -110,7 +110,10 @@ fn main() {
     let zero = BigInt::from(0);
     let one = unit();
     let mut done = 0usize;
-    for h in 0..nh {
+    let plan = boundary_plan();
+    // history 0 = the deterministic boundary family (identical for every seed), then the random histories
+    for h in 0..(nh + 1) {
+        let scripted = h == 0;
         let hroot = root.fork(1_000_000 + h as u64);
         let mut world = match World::try_new() {
         Ok(w) => w,
@@ -121,11 +124,24 @@ fn main() {
         }
     };
         let mut pre = scan(world.db());
-        let n = per.min(args.cases - done.min(args.cases)).max(1);
+        let n = if scripted { plan.len() } else { per.min(args.cases - done.min(args.cases)).max(1) };
         for i in 0..n {
             let gi = done + i;
             let mut rng = hroot.fork(i as u64);
-            let tx = world.next_tx(&mut rng);
+            let tx = if scripted {
+                match world.boundary_step(i) {
+                    Some((class, tx)) => {
+                        report.count(&format!("bf_{}", class));
+                        tx
+                    }
+                    None => {
+                        report.count(&format!("bf_skipped_{}", plan[i].0));
+                        continue;
+                    }
+                }
+            } else {
+                world.next_tx(&mut rng)
+            };
             report.count(&format!("tx_{}", tx.label));
             let receipt = match world.run(&tx) {
                 Ok(r) => r,
@@ -180,7 +196,9 @@ fn main() {
             }
             pre = s;
         }
-        done += n;
+        if !scripted {
+            done += n;
+        }
         // Coq case: the whole event stream and the final state
         let all: Vec<Vec<Ev>> = world.ledger.collected_events().iter().map(|e| events_of(e)).collect();
         let mut it = Intern::new();
@@ -209,6 +227,13 @@ fn main() {
         if h == 0 {
             report.sample(json!({"history": 0, "resources": pre.res.len(), "vaults": pre.fvaults.len() + pre.nvaults.len(), "db_nodes": pre.nodes}));
         }
+    }
+    let mut per_class: BTreeMap<&'static str, u64> = BTreeMap::new();
+    for (c, _) in &plan {
+        *per_class.entry(*c).or_default() += 1;
+    }
+    for (c, k) in &per_class {
+        report.floor(&format!("bf_{}", c), *k);
     }
     let n = args.cases as u64;
     report.floor("outcome_success", n / 3);
